@@ -493,7 +493,9 @@ class WebSocket:
                     return self.cont_frame.extract(frame)
 
             elif frame.opcode == ABNF.OPCODE_CLOSE:
-                self.send_close()
+                if self.connected:
+                    # reply once; not when our own close frame is already out
+                    self.send_close()
                 return frame.opcode, frame
             elif frame.opcode == ABNF.OPCODE_PING:
                 if len(frame.data) < 126:
